@@ -379,14 +379,14 @@ def check_valid(model, spelling, res, label, challenge_sel=None):
         res.violation(f"track:{v[0]}:{spelling}", f"{label} [{spelling}]: {v[1]}", {"kind": "valid", "model": model, "spelling": spelling, "label": label, "sel": challenge_sel})
 
 
-def check_invalid(model, rule, spelling, res, label, params_extra=None):
+def check_invalid(model, rule, spelling, res, label, params_extra=None, challenge_sel=None):
     from esrally import exceptions
     from esrally.track import loader
 
     path, params, d = write_track(model, spelling, params_extra)
     v = None
     try:
-        reader = loader.TrackFileReader(cfg_for(params))
+        reader = loader.TrackFileReader(cfg_for(params, challenge_sel))
         reader.read("verif", path, d)
         v = ("invalid-track-loaded", f"rule [{rule}] violated but the track was loaded")
     except exceptions.RallyError:
@@ -397,7 +397,7 @@ def check_invalid(model, rule, spelling, res, label, params_extra=None):
         shutil.rmtree(d, ignore_errors=True)
     res.case(nontrivial_key=("invalid", label, rule, spelling), outcome_key=("invalid", rule, v[0] if v else "rejected"))
     if v:
-        res.violation(f"track:{v[0]}:{rule}", f"{label} [{spelling}] {v[1]}", {"kind": "invalid", "model": model, "rule": rule, "spelling": spelling, "label": label, "params": params_extra})
+        res.violation(f"track:{v[0]}:{rule}", f"{label} [{spelling}] {v[1]}", {"kind": "invalid", "model": model, "rule": rule, "spelling": spelling, "label": label, "params": params_extra, "challenge": challenge_sel})
 
 
 # ------------------------------------------------------------------------------------------------ generators
@@ -655,13 +655,13 @@ def invalid_models():
         yield "b-corpus", m
 
     for bl, b in bases():
-        def mut(rule, f, params=None):
+        def mut(rule, f, params=None, challenge=None):
             m = copy.deepcopy(b)
             try:
                 f(m)
             except (KeyError, IndexError, TypeError):
                 return None
-            return (f"{bl}", rule, m, params)
+            return (f"{bl}", rule, m, params, challenge)
 
         sched = lambda m: m["challenges"][0]["schedule"]  # noqa: E731
         cands = [
@@ -671,6 +671,14 @@ def invalid_models():
             mut("duplicate-challenge-name", lambda m: m["challenges"].append(copy.deepcopy(m["challenges"][0])) or m["challenges"][-1].update(default=False)),
             mut("two-default-challenges", lambda m: m["challenges"][1].update(default=True)),
             mut("no-default-challenge", lambda m: m["challenges"][0].update(default=False) if len(m["challenges"]) > 1 else (_ for _ in ()).throw(KeyError())),
+            # ... also when the user has selected one of the challenges by name (--challenge)
+            mut("no-default-challenge-but-one-selected", lambda m: m["challenges"][0].update(default=False) if len(m["challenges"]) > 1 else (_ for _ in ()).throw(KeyError()), None, "c1"),
+            mut("two-default-challenges-one-selected", lambda m: m["challenges"][1].update(default=True), None, "c1"),
+            # integer properties are integers: a float with a zero fraction (what Jinja's true division renders) is not one (JSON schema draft-04)
+            mut("clients-float-with-zero-fraction", lambda m: sched(m)[0].update({"clients": 2.0})),
+            mut("iterations-float-with-zero-fraction", lambda m: sched(m)[0].update({"iterations": 5.0})),
+            mut("time-period-float-with-zero-fraction", lambda m: sched(m)[0].update({"warmup-time-period": 4.0, "time-period": 10})),
+            mut("document-count-float-with-zero-fraction", lambda m: m["corpora"][0]["documents"][0].update({"document-count": 1.0})),
             mut("duplicate-operation-name", lambda m: m["operations"].append(copy.deepcopy(m["operations"][0]))),
             mut("duplicate-corpus-name", lambda m: m["corpora"].append(copy.deepcopy(m["corpora"][0]))),
             mut("warmup-iterations-with-time-period", lambda m: sched(m)[0].update({"warmup-iterations": 1, "time-period": 5})),
@@ -726,9 +734,9 @@ def _job(arg):
                     continue
                 check_valid(model, spelling, res, label, sel)
         else:
-            bl, rule, model, params = it
+            bl, rule, model, params, chsel = it
             for spelling in ("plain", "jinja"):
-                check_invalid(model, rule, spelling, res, f"{bl}", params)
+                check_invalid(model, rule, spelling, res, f"{bl}", params, chsel)
     return res
 
 
@@ -760,5 +768,5 @@ def replay(data):
     if data["kind"] == "valid":
         check_valid(data["model"], data["spelling"], res, data["label"], data.get("sel"))
     else:
-        check_invalid(data["model"], data["rule"], data["spelling"], res, data["label"], data.get("params"))
+        check_invalid(data["model"], data["rule"], data["spelling"], res, data["label"], data.get("params"), data.get("challenge"))
     return [v for lst in res.violations.values() for v in lst]
